@@ -117,6 +117,14 @@ def msg_laws(case):
             out.append(("A:%s:serialize-raises:%s%s" % (form, type(e).__name__, (":" + kinds[0]) if kinds else ""),
                         "%s: serialize(%s) raised %r" % (case["name"], form, e)))
             continue
+        if form == "dict":
+            # converting is reading: the message is what it was, a second conversion gives the same form
+            try:
+                again = LSER.serialize(m, as_dict=True)
+                if repr(again) != repr(ser):
+                    out.append(("A:dict:serialize-twice", "%s: a second serialize() of the same message gives a different LLSD form" % case["name"]))
+            except Exception as e:
+                out.append(("A:dict:serialize-twice:raises", "%s: a second serialize() of the same message raised %r" % (case["name"], e)))
         try:
             m2 = LSER.deserialize(ser)
         except Exception as e:
@@ -226,13 +234,13 @@ def leaf(binary_only_dates=False):
     opts = [
         st.none(), st.booleans(), st.integers(-2 ** 31, 2 ** 31 - 1),
         st.floats(allow_nan=False, allow_infinity=False), st.sampled_from([0.0, -0.0, 1.5]),
-        TEXT, st.sampled_from(["\\n", "a\\\nb", "\\", "'", "it's", "line1\nline2\n"]),
+        TEXT, st.sampled_from(["\\n", "a\\\nb", "\\", "'", "it's", "line1\nline2\n", "\ufeffbom first", "\ufeff", "a\ufeffb"]),
         st.binary(max_size=10).map(lambda b: ("binary", b)),
         # the flavours of bytes the library itself hands out (message fields of unknown nature, raw blobs): binary values like any other
         st.tuples(st.sampled_from(["jank", "rawbytes"]),
                   st.one_of(st.binary(max_size=10), st.sampled_from([b"text\x00", b"caf\xc3\xa9", b"\xff\xfe", b"a\x00b\x00", b"\x01\x02\n"]))),
         st.text(st.characters(min_codepoint=0x21, max_codepoint=0x7E, blacklist_characters="'\"\\<>&"), max_size=12).map(lambda s: ("uri", "http://x/" + s)),
-        st.sampled_from([("uri", "http://ex.am/é中")]),
+        st.sampled_from([("uri", "http://ex.am/é中"), ("uri", "\ufeffhttp://bom.first/")]),
         st.integers(0, 2 ** 128 - 1).map(lambda i: ("uuid", i)), st.integers(0, 2 ** 128 - 1).map(lambda i: ("stduuid", i)),
         DATETIMES.map(lambda d: ("naive", d.isoformat())),
         DATETIMES.map(lambda d: ("utc", d.isoformat())),
@@ -248,7 +256,7 @@ def leaf(binary_only_dates=False):
 # map keys are text like any other: non-ASCII (multi-byte in UTF-8), blanks, quotes and XML metacharacters included
 KEYS = st.one_of(st.text(st.characters(min_codepoint=0x21, max_codepoint=0x7E), max_size=6),
                  st.text(st.one_of(st.characters(min_codepoint=0x20, max_codepoint=0x7E), st.sampled_from(list("é中\U0001F600ß"))), min_size=1, max_size=5),
-                 st.sampled_from(["é", "中文", "k\U0001F600", "a b", "<k>", "q'\"", "ключ"]))
+                 st.sampled_from(["é", "中文", "k\U0001F600", "a b", "<k>", "q'\"", "ключ", "\ufeffkey"]))
 
 
 def tree(binary_only_dates=False):
